@@ -45,6 +45,21 @@ def impl(c):
             exp = [common.lap_apply(G, b0, [-1 if v == G["n"] - 1 else 0 for v in range(G["n"])]) if j <= i else b0 for j, b0 in enumerate(before)]
             if now != exp: ok = False; break
         out["independent"] = ok
+        # the recorded ORIENTATIONS are snapshots too: each must agree with a recount from its own direction table, also after the orientation EWD returned
+        # (or a later frame's) is changed
+        def ocount(o_):
+            pairs = common.orientation_pairs(G, o_); M_ = common.matrix(G)
+            return [[sum(M_[a][b] for a, b in pairs if b == v) for v in range(G["n"])], [sum(M_[a][b] for a, b in pairs if a == v) for v in range(G["n"])]]
+        def oread(o_): return [[o_.get_in_degree(x) for x in names], [o_.get_out_degree(x) for x in names]]
+        okO = all(oread(h["orientation"]) == ocount(h["orientation"]) for h in hist)
+        live = hist[-1]["orientation"]; pr = common.orientation_pairs(G, live)
+        if pr and len(hist) >= 2:
+            from chipfiring.CFOrientation import OrientationState
+            from chipfiring.CFGraph import Vertex
+            before_o = [oread(h["orientation"]) for h in hist[:-1]]
+            a0, b0 = pr[0]; live.set_orientation(Vertex(names[b0]), Vertex(names[a0]), OrientationState.SOURCE_TO_SINK)
+            okO = okO and before_o == [oread(h["orientation"]) for h in hist[:-1]] and oread(live) == ocount(live)
+        out["orient_snapshots_ok"] = okO
     # element lists
     g = common.build_impl_graph(G, rng); d = common.build_impl_divisor(G, c.get("DL", c["D"]), graph=g); o = CFOrientation(g, [(names[a], names[b]) for a, b in c["ori"]])
     def nodes(els): return sorted((e["data"]["id"], e["data"]["label"]) for e in els if "source" not in e["data"])
@@ -121,6 +136,7 @@ def judge(c, r, mo):
                     if mo[k][0] not in ("1", "FUEL"): out.append({"what": "recorded snapshot %s is not linearly equivalent to the input %s" % (h, c["D"])}); break
                     k += 1
             if not o["independent"]: out.append({"what": "recorded snapshots are not independent objects (mutating one / the returned divisor changed another)"})
+            if not o.get("orient_snapshots_ok", True): out.append({"what": "a recorded orientation reports in/out-degrees that differ from a recount of its own arrows, or changed when another frame's orientation was turned"})
     out += [{"what": w} for w in _elements_check(c, o)]
     return out[:3]
 def oracle(c, r):
@@ -128,7 +144,7 @@ def oracle(c, r):
     o = r["ok"]; m = O.mk(c["G"]); why = []
     if o["on"] != o["off"]: why.append("on/off results differ: %s vs %s" % (o["on"], o["off"]))
     if "hist" in o:
-        if not o["hist"] or not o.get("independent", True): why.append("history empty or snapshots aliased")
+        if not o["hist"] or not o.get("independent", True) or not o.get("orient_snapshots_ok", True): why.append("history empty or snapshots aliased")
         elif any(not O.lin_equiv(m, c["D"], h) for h in o["hist"] if isinstance(h, list)): why.append("a snapshot left the class")
         elif o["on"][1] is not None and o["hist"][-1] != o["on"][1]: why.append("last snapshot != returned divisor")
     why += _elements_check(c, o)
